@@ -223,3 +223,69 @@ package oned
 //@   opt check=asserts
 //@   assert call(Reverse,0): attempt == 1
 //@   assert call(PutMetadata,0): attempt == 1 && e == nil && typeis(arg2, "int") && arg1 == gozxing.ResultMetadataType_ORIENTATION
+
+// ---------------------------------------------------------------- Code 128 code-set choice (C03): whichever set is chosen can encode the next character
+// set A: ASCII 0..95 and FNC1-4; set B: ASCII 32..127 and FNC1-4; set C: a pair of digits, or FNC1
+//@ pred isFNC128(c rune) = 241 <= int(c) && int(c) <= 244
+//@ pred isDigit128(c rune) = 48 <= int(c) && int(c) <= 57
+//@ func code128FindCType(value []rune, start int) (r code128CType)
+//@   property C03
+//@   requires 0 <= start
+//@   ensures int(r) == (start >= len(value) ? 0 : (int(value[start]) == 241 ? 3 : (!isDigit128(value[start]) ? 0 : ((start + 1 >= len(value) || !isDigit128(value[start+1])) ? 1 : 2))))
+//@   modifies nothing
+//@ func code128ChooseCode(value []rune, start int, oldCode int) (r int)
+//@   property C03
+//@   requires 0 <= start && start < len(value) && len(value) <= 100000 && (oldCode == 0 || oldCode == 99 || oldCode == 100 || oldCode == 101)
+//@   requires forall k int :: 0 <= k && k < len(value) ==> (0 <= int(value[k]) && int(value[k]) <= 127) || isFNC128(value[k])
+//@   ensures r == 99 || r == 100 || r == 101
+//@   ensures r == 101 ==> int(value[start]) < 96 || isFNC128(value[start])
+//@   ensures r == 100 ==> (32 <= int(value[start]) && int(value[start]) <= 127) || isFNC128(value[start])
+//@   ensures r == 99 ==> int(value[start]) == 241 || (isDigit128(value[start]) && start + 1 < len(value) && isDigit128(value[start+1]))
+//@   modifies nothing
+//@   loop 0: invariant index >= start + 4
+
+// ---------------------------------------------------------------- pattern tables shared or mirrored between writers and readers (C03)
+// ITF: the writer's table marks the same elements wide (3) and narrow (1) as both width variants of the reader's table; two of five are wide
+//@ lemma itfTables(d int, k int)
+//@   property C03
+//@   globals itfWriter_PATTERNS, itfReader_PATTERNS, itfWriter_START_PATTERN, itfWriter_END_PATTERN
+//@   proof cases d 0 9, k 0 4
+//@   ensures len(itfWriter_PATTERNS) == 10 && len(itfReader_PATTERNS) == 20 && len(itfWriter_PATTERNS[d]) == 5 && len(itfReader_PATTERNS[d]) == 5 && len(itfReader_PATTERNS[d+10]) == 5
+//@   ensures (itfWriter_PATTERNS[d][k] == 1 || itfWriter_PATTERNS[d][k] == 3) && (itfWriter_PATTERNS[d][k] == 1) == (itfReader_PATTERNS[d][k] == 1) && (itfWriter_PATTERNS[d][k] == 1) == (itfReader_PATTERNS[d+10][k] == 1)
+//@   ensures (itfReader_PATTERNS[d][k] == 1 || itfReader_PATTERNS[d][k] == 2) && (itfReader_PATTERNS[d+10][k] == 1 || itfReader_PATTERNS[d+10][k] == 3)
+//@   ensures itfWriter_PATTERNS[d][0] + itfWriter_PATTERNS[d][1] + itfWriter_PATTERNS[d][2] + itfWriter_PATTERNS[d][3] + itfWriter_PATTERNS[d][4] == 9
+//@ lemma itfDistinct(d int, e int)
+//@   property C03
+//@   globals itfWriter_PATTERNS
+//@   proof cases d 0 9, e 0 9
+//@   requires d < e
+//@   ensures exists k int :: 0 <= k && k < 5 && itfWriter_PATTERNS[d][k] != itfWriter_PATTERNS[e][k]
+// UPC/EAN: every L pattern is four runs summing to 7 modules, the G pattern of a digit is the reversed L pattern, all 20 are distinct
+//@ lemma upcLG(d int)
+//@   property C03
+//@   globals UPCEANReader_L_PATTERNS, UPCEANReader_L_AND_G_PATTERNS
+//@   proof cases d 0 9
+//@   let L = UPCEANReader_L_PATTERNS[d]
+//@   ensures len(UPCEANReader_L_PATTERNS) == 10 && len(UPCEANReader_L_AND_G_PATTERNS) == 20 && len(L) == 4 && L[0] + L[1] + L[2] + L[3] == 7 && L[0] >= 1 && L[1] >= 1 && L[2] >= 1 && L[3] >= 1
+//@   ensures len(UPCEANReader_L_AND_G_PATTERNS[d]) == 4 && len(UPCEANReader_L_AND_G_PATTERNS[d+10]) == 4
+//@   ensures forall k int :: 0 <= k && k < 4 ==> UPCEANReader_L_AND_G_PATTERNS[d][k] == L[k] && UPCEANReader_L_AND_G_PATTERNS[d+10][k] == L[3-k]
+//@ lemma upcDistinct(i int, j int)
+//@   property C03
+//@   globals UPCEANReader_L_AND_G_PATTERNS
+//@   proof cases i 0 19, j 0 19
+//@   requires i < j
+//@   ensures exists k int :: 0 <= k && k < 4 && UPCEANReader_L_AND_G_PATTERNS[i][k] != UPCEANReader_L_AND_G_PATTERNS[j][k]
+// Code 128: 107 patterns; 0..105 are six runs summing to 11 modules, the stop pattern seven runs summing to 13; all distinct
+//@ lemma code128Table(i int)
+//@   property C03
+//@   globals code128CODE_PATTERNS
+//@   proof cases i 0 105
+//@   let p = code128CODE_PATTERNS[i]
+//@   ensures len(code128CODE_PATTERNS) == 107 && len(p) == 6 && p[0] + p[1] + p[2] + p[3] + p[4] + p[5] == 11 && p[0] >= 1 && p[1] >= 1 && p[2] >= 1 && p[3] >= 1 && p[4] >= 1 && p[5] >= 1
+//@   ensures len(code128CODE_PATTERNS[106]) == 7 && code128CODE_PATTERNS[106][0] + code128CODE_PATTERNS[106][1] + code128CODE_PATTERNS[106][2] + code128CODE_PATTERNS[106][3] + code128CODE_PATTERNS[106][4] + code128CODE_PATTERNS[106][5] + code128CODE_PATTERNS[106][6] == 13
+//@ lemma code128Distinct(i int, j int)
+//@   property C03
+//@   globals code128CODE_PATTERNS
+//@   proof cases i 0 105, j 0 105
+//@   requires i < j
+//@   ensures exists k int :: 0 <= k && k < 6 && code128CODE_PATTERNS[i][k] != code128CODE_PATTERNS[j][k]
